@@ -87,7 +87,7 @@ func checkC16(c *core.Check) {
 	rng.Shuffle(len(sets), func(i, j int) { sets[i], sets[j] = sets[j], sets[i] })
 	nSets, depth := 10, 3
 	if thorough {
-		nSets, depth = 120, 4
+		nSets, depth = 40, 3
 	}
 	a := kitchenSpec()
 	caseN := 0
